@@ -49,7 +49,8 @@ func c15(c *core.Check) {
 		"(b) AST side: every attribute of every AST node type (enumerated through go/types) is read inside the call-graph closure of GetFileDescriptor, except resolution-only / implied attributes (reasoned list) and attributes without a slot, for which the checker verifies that the paired descriptor struct really has no such field. " +
 		"(c) ENUM: getConstValueDescriptor handles all six ConstTypes; meta.read and meta.write switch over the same TTypeIDs (necessary for encode-then-decode identity). " +
 		"(d) TMPL on the reflection file template: every struct, union, exception and enum listed in file_…_go_types has GetDescriptor and GetTypeDescriptor methods in the same rendering (unless is_alias), and each looks its descriptor up under the IDL name of the same node. " +
-		"NOT decided: value fidelity, registry behaviour, lookups across files; ordering of map-typed descriptor fields is C07's finding."
+		"(e) a name read from a descriptor is only looked up in the file that same descriptor came from (LookupFD(X.Filepath).Get…Descriptor(X.<name>) with one X). " +
+		"NOT decided: value fidelity, registry behaviour; ordering of map-typed descriptor fields is C07's finding."
 	c.RuleText = "one obligation per descriptor literal, per AST attribute, per enumeration member, per rendering-level rule"
 	c.Assume = []string{"VTA call graph over-approximates calls"}
 	prog := c.Prog
@@ -141,6 +142,7 @@ func c15(c *core.Check) {
 	}
 	c.Min("ast-attribute-copied", 60)
 	// (c) ENUM ConstType
+	c15ownerFile(c)
 	c15constTypes(c)
 	c15metaSymmetry(c)
 	// (d) template
